@@ -228,3 +228,39 @@ func ValidPatch(p map[string]any) bool {
 	}
 	return false
 }
+
+// ValidJSONPatch: the ietf-json-patch value is a non-empty list of operation objects, each with a
+// string path outside the public keys and services (and, for move, a from outside them too).
+func ValidJSONPatch(p map[string]any) bool {
+	l, ok := nonEmptyList(p["patches"])
+	if !ok {
+		return false
+	}
+	protected := func(ptr string) bool {
+		return len(ptr) >= len("/service") && ptr[:len("/service")] == "/service" || len(ptr) >= len("/publicKey") && ptr[:len("/publicKey")] == "/publicKey"
+	}
+	for _, e := range l {
+		o, ok := e.(map[string]any)
+		if !ok {
+			return false
+		}
+		path, ok := o["path"].(string)
+		if !ok || protected(path) {
+			return false
+		}
+		if kind, _ := o["op"].(string); kind == "move" {
+			if from, ok := o["from"].(string); ok && protected(from) {
+				return false
+			}
+		}
+	}
+	return true
+}
+
+// ValidAnyPatch covers all eight actions.
+func ValidAnyPatch(p map[string]any) bool {
+	if a, _ := p["action"].(string); a == "ietf-json-patch" {
+		return ValidJSONPatch(p)
+	}
+	return ValidPatch(p)
+}
